@@ -22,6 +22,11 @@ pub enum Seg {
     /// symbols with Fibonacci-like (geometric, ratio ~1.618) frequencies: forces Huffman codes up to the
     /// 15-bit limit in the compressor (length-limiting code) 
     Skewed { n: u32, syms: u8, seed: u64 },
+    /// `records` records of one varying byte + a 300-byte tail that repeats the previous record's tail,
+    /// arranged so that a lazy parser sees a short match at the varying byte and a >= 128 byte match one
+    /// position later (literal + long match in ONE parser step); after `prefix` unique literal bytes.
+    /// Fills the 64 KiB LZ code buffer with maximal-size steps (boundary sweep over `prefix`).
+    LazyEdge { records: u32, prefix: u16, seed: u64 },
 }
 
 #[derive(Clone, Debug, Serialize, Deserialize, PartialEq, Eq)]
@@ -97,6 +102,27 @@ impl Seg {
                     } else {
                         out.push((splitmix64(&mut s) >> 17) as u8);
                     }
+                }
+            }
+            Seg::LazyEdge { records, prefix, seed } => {
+                let mut s = *seed;
+                for _ in 0..*prefix {
+                    out.push(splitmix64(&mut s) as u8);
+                }
+                // two tails sharing their first 50 bytes
+                let mut t1: Vec<u8> = (0..300).map(|_| splitmix64(&mut s) as u8).collect();
+                let mut t2 = t1.clone();
+                for b in t2.iter_mut().skip(50) {
+                    *b = splitmix64(&mut s) as u8;
+                }
+                // keep the varying byte out of the tails' first byte to avoid accidental long matches
+                t1[0] = 0xfe;
+                t2[0] = 0xfe;
+                for i in 0..*records {
+                    // 90 x 301 bytes = 27090: the other-tail record with the same first byte is inside the window,
+                    // the same-tail one (54180 back) is not
+                    out.push((i % 90) as u8);
+                    out.extend_from_slice(if (i / 90) % 2 == 0 { &t1 } else { &t2 });
                 }
             }
             Seg::Raw(v) => out.extend_from_slice(v),
